@@ -1151,7 +1151,7 @@ class UnitBuilder:
                               "lines": [s.line(it.start), s.line(it.end)]})
 
     # -- types -----------------------------------------------------------
-    def emit_type(self, rel: str, kind: str, name: str, minus=()):
+    def emit_type(self, rel: str, kind: str, name: str, minus=(), withs=()):
         s = self.source(rel)
         it = s.find_type(kind, name)
         self.cut(s, it, f"{kind} {name}")
@@ -1168,6 +1168,8 @@ class UnitBuilder:
             bo = next(i for i, t in enumerate(toks) if is_p(t, "("))
             body = clean_type_body(toks[bo:], self.rep, True, froms, None)
             toks = toks[:bo] + body
+        for old, new in withs:
+            toks = apply_subst(toks, old, new, self.rep, f"{kind} {name}")
         self.out.text(attrs, kind="gen")
         self.out.text("pub ", kind="gen")
         toks[0] = Tok(toks[0].kind, toks[0].text, toks[0].pos, "")
@@ -1478,6 +1480,15 @@ class UnitBuilder:
                     j += 1
                 end = j
             return body[li:end + 1]
+        m = re.match(r"^arm_block (\d+)$", anchor)
+        if m:
+            # the block of the K-th match arm of the function whose body is a block (`=> {`), braces included
+            k = int(m.group(1))
+            sites = [i for i, t in enumerate(body) if is_p(t, "=") and adj(body, i, "=>") and i + 2 < len(body) and is_p(body[i + 2], "{")]
+            if k > len(sites):
+                raise Undecided(f"lost anchor: match arm #{k} with a block body in {fnq}")
+            j = sites[k - 1] + 2
+            return body[j:match_close(body, j) + 1]
         m = re.match(r"^let_init (\w+)(?:#(\d+))?$", anchor)
         if m:
             _, lo, semi = find_let(body, m.group(1), int(m.group(2) or 1))
@@ -1555,14 +1566,21 @@ class UnitBuilder:
         fnq = ws.qual
         body = it.toks[it.body_open:]
         frags = {}
+        wleafs: List[tuple] = []
         for name, anchor in ws.frags.items():
             toks = list(self.cut_fragment(body, anchor, fnq))
             self.rep.cuts.append({"item": f"{ws.name}.{name} ({anchor})", "file": s.rel,
                                   "bytes": [toks[0].pos, toks[-1].end], "lines": [s.line(toks[0].pos), s.line(toks[-1].end)]})
+            if ws.desugar_try:
+                toks = rule_R10(toks, ws.desugar_try, self.rep, fnq)
+            if ws.lifts:
+                toks = apply_lifts(toks, ws.lifts, self.rep, fnq, wleafs)
             if self.spec.mode == "verus":
                 toks = rule_R1(toks, self.rep)
                 toks = rule_R2(toks, self.rep)
                 toks = rule_R3(toks, self.rep)
+            for old, new in ws.substs:
+                toks = apply_subst(toks, old, new, self.rep, fnq)
             frags[name] = toks
             self.rep.rule("R11 fragment cut out of a function body and wrapped in a synthesised fn")
         lo_line = self.out.line
@@ -1597,6 +1615,15 @@ class UnitBuilder:
         self.fn_ranges.append({"qual": fnq, "name": m.group(1) if m else ws.name, "lo": lo_line, "hi": self.out.line, "labels": labels,
                                "kind": "fn", "no_canary": ws.no_canary or self.spec.mode != "verus", "src": ws.source,
                                "src_lines": [s.line(it.start), s.line(it.end)]})
+        for sigtxt, cut, is_method in wleafs:
+            self.out.text("#[verifier::external_body]\npub " + sigtxt.strip() + "\n{ ", kind="gen")
+            if cut is None:
+                self.out.text("unimplemented!() /* lifted expression not emitted (type adapted in the signature) */", kind="gen")
+            else:
+                cut = list(cut)
+                cut[0] = Tok(cut[0].kind, cut[0].text, cut[0].pos, "")
+                self.out.toks(cut, s, fnq + " (lift)")
+            self.out.text(" }\n", kind="gen")
 
     # -- whole unit -------------------------------------------------------
     def build(self) -> str:
